@@ -18,6 +18,7 @@ Monitors:
 """
 import io
 import json
+import warnings
 import os
 import random
 import subprocess
@@ -26,7 +27,7 @@ import threading
 import time
 
 from vf.core.ctx import fp
-from vf.gen import instances
+from vf.gen import instances, render
 from vf.oracles import modelwalk, ref_decl, ref_sgml
 
 PROP = "C17"
@@ -50,6 +51,9 @@ MIN_COUNTERS = {"quick": {"baseline_items": 800, "dirty_results_compared": 2400,
                 "thorough": {"baseline_items": 6000, "dirty_results_compared": 18000, "thread_results_compared": 12000, "input_snapshots_compared": 40000,
                              "cross_thread_switches": 3000, "switch_edges": 40}}
 
+# classes whose documents contain warn-only strings (over-long values are accepted with a warning - also while other threads write)
+NAG_CLASSES = {"BANKACCTFROM", "BANKACCTTO", "CCACCTFROM", "CCACCTTO", "INVACCTFROM", "INVACCTTO", "PAYEE", "STMTTRN", "SECINFO", "STMTRS", "CCSTMTRS", "INVSTMTRS",
+               "BANKTRANLIST", "SECLIST", "STOCKINFO", "MFINFO", "STMTTRNRS", "INV401K", "BANKMSGSRSV1", "SECLISTMSGSRSV1", "OFX", "ACCTINFO", "BANKACCTINFO"}
 FORMS = [(203, False, True), (220, True, True), (102, False, True), (160, True, True), (103, False, False), (151, True, False)]
 
 
@@ -73,6 +77,11 @@ def make_items(seed, shard, nshards, tier):
             seedstr = f"C17/{seed}/{name}/{p}"
             items.append({"id": f"rt/{name}/{p}", "kind": "roundtrip", "cls": name, "seedstr": seedstr, "form": (ci + p) % 6})
             items.append({"id": f"fe/{name}/{p}", "kind": "from_etree", "cls": name, "seedstr": seedstr, "profile": "max" if p == 0 else "random"})
+            if p == 0 and name in NAG_CLASSES:
+                items.append({"id": f"nag/{name}/{p}", "kind": "roundtrip", "cls": name, "seedstr": seedstr + "/nag", "form": (ci + 1) % 6, "nag": True})
+                items.append({"id": f"nagfe/{name}/{p}", "kind": "from_etree", "cls": name, "seedstr": seedstr + "/nag", "profile": "random", "nag": True})
+                for q in range(3):
+                    items.append({"id": f"nagread/{name}/{q}", "kind": "nagread", "cls": name, "seedstr": f"{seedstr}/nagread/{q}", "nag": True})
             if p == 0:
                 items.append({"id": f"bad/{name}/{p}", "kind": "failing", "cls": name, "seedstr": seedstr, "form": (ci + 3) % 6, "fault": ci % 3})
     for j in range(8 if tier == "quick" else 40):
@@ -82,6 +91,17 @@ def make_items(seed, shard, nshards, tier):
 
 def etree_snap(e):
     return (id(e), e.tag, e.text, e.tail, tuple(sorted(e.attrib.items())), tuple(etree_snap(c) for c in e))
+
+
+_NAGDOCS = {}
+
+
+class _NullCtx:
+    def count(self, *a, **k):
+        pass
+
+    def add(self, *a, **k):
+        pass
 
 
 class Imm:
@@ -120,11 +140,37 @@ def run_item(item, imm):
         return fp(out)
     cls = ref_decl.all_classes()[item["cls"]]
     rng = random.Random(item["seedstr"])
-    inst = instances.build(cls, rng, item.get("profile", "random"), opts=instances.Opts(maxdepth=5))
+
+    def nag(r, desc, clsname, attr):
+        from ofxtools import Types as T
+        if item.get("nag") and isinstance(desc, T.NagString) and desc.length:
+            return "N" * (desc.length + 1 + r.randint(0, 9))  # over the limit: accepted with a warning, kept whole
+        return NotImplemented
+
+    def make():
+        return instances.build(cls, random.Random(item["seedstr"]), item.get("profile", "random"), opts=instances.Opts(maxdepth=5, value_fn=nag))
+
+    if kind == "nagread":
+        # a document containing over-long warn-only strings, rendered by the HARNESS (no library serializer involved): reading it
+        # must give the same model whatever other threads are doing (e.g. writing) and whatever happened before
+        from vf.checks import c03
+        data = _NAGDOCS.get(item["id"])
+        if data is None:
+            lex = c03.Lex(_NullCtx(), random.Random(item["seedstr"]))
+            lex.nag_over = True
+            tree, _ = c03.document(lex, make())
+            data = (c03.V1HDR + render.random_rendering(tree, random.Random(item["seedstr"] + "/r"))).encode("utf_8")
+            _NAGDOCS[item["id"]] = data
+        t = OFXTree()
+        t.parse(io.BytesIO(data))
+        return fp(modelwalk.snap(t.convert(), exact=True))
+    inst = make()
+    keys0 = sorted(inst.__dict__)
     if kind == "from_etree":
         before_model = modelwalk.snap(inst, exact=True)
         elem = inst.to_etree()
         imm.check("model-mutated-by-to_etree", before_model, modelwalk.snap(inst, exact=True), item)
+        imm.check("instance-dict-changed-by-to_etree", keys0, sorted(inst.__dict__), item)
         es = etree_snap(elem)
         model = Aggregate.from_etree(elem)
         imm.check("tree-mutated-by-from_etree", es, etree_snap(elem), item)
@@ -133,6 +179,13 @@ def run_item(item, imm):
     before_model = modelwalk.snap(inst, exact=True)
     data = OFXClient("http://localhost", version=ver, prettyprint=pretty, close_elements=close).serialize(inst)
     imm.check("model-mutated-by-serialize", before_model, modelwalk.snap(inst, exact=True), item)
+    imm.check("instance-dict-changed-by-serialize", keys0, sorted(inst.__dict__), item)
+    if kind == "roundtrip":
+        # writing the SAME instance again in the complementary formatting must give what a fresh equal instance gives
+        ver2 = ver if close else (ver if ver < 200 else 102)
+        again = OFXClient("http://localhost", version=ver2, prettyprint=not pretty, close_elements=close).serialize(inst)
+        fresh = OFXClient("http://localhost", version=ver2, prettyprint=not pretty, close_elements=close).serialize(make())
+        imm.check("second-serialization-differs-from-fresh-instance", fresh, again, item)
     if kind == "failing":
         text = data.decode("utf_8")
         if item["fault"] == 0:
@@ -270,6 +323,8 @@ def run_shard(ctx):
         with lm:
             for T in tcounts:
                 work = rng.sample(good, min(chunk, len(good)))
+                work += [x for x in good if x["kind"] == "nagread" and x not in work]
+                rng.shuffle(work)
                 parts = [work[i::T] for i in range(T)]
                 res_lock = threading.Lock()
                 barrier = threading.Barrier(T)
@@ -298,6 +353,13 @@ def run_shard(ctx):
     for (T, iid), (it, got) in results.items():
         compare(ctx, "thread", it, got, base)
         ctx.distinct(("thread", T, iid))
+    # ---- (ii-c) once more sequentially AFTER the threads have gone: nothing they did may linger
+    for it in [x for x in good if x["kind"] == "nagread"] + rng.sample(good, min(40, len(good))):
+        try:
+            got = run_item(it, imm)
+        except Exception as e:
+            got = ["item-raised", type(e).__name__, str(e)[:100]]
+        compare(ctx, "after-threads", it, got, base)
     ctx.count("line_events_in_ofxtools", lm.events)
     ctx.count("cross_thread_switches", lm.switches)
     ctx.count("switch_edges", len(lm.edges))
